@@ -187,3 +187,47 @@ def whole_iter(node, allowed_wrappers=('list', 'sorted', 'tuple', 'iter',
     if isinstance(n, (ast.Name, ast.Attribute, ast.Call, ast.Subscript)):
         return n
     return None
+
+
+MUTATING_METHODS = {'append', 'extend', 'insert', 'pop', 'remove', 'clear',
+                    'update', 'setdefault', 'popitem', 'add', 'discard',
+                    'sort', 'reverse', '__setitem__', '__delitem__'}
+
+
+def readonly_literal_table(module_tree, class_node, name):
+    """Is the class-level binding `name` a literal whose entries are
+    constants and which nothing in the module stores into, deletes from,
+    re-binds or calls a mutating method on?  Such a table is a constant: it
+    cannot carry state between calls or objects."""
+    binds = [s for s in class_node.body if isinstance(s, ast.Assign)
+             and any(isinstance(t, ast.Name) and t.id == name
+                     for t in s.targets)]
+    if len(binds) != 1:
+        return False
+    val = binds[0].value
+    try:
+        ast.literal_eval(val)
+    except Exception:
+        return False
+    for node in ast.walk(module_tree):
+        tgt = None
+        if isinstance(node, ast.Attribute) and node.attr == name:
+            tgt = node
+        elif isinstance(node, ast.Name) and node.id == name and \
+                node is not binds[0].targets[0]:
+            tgt = node
+        if tgt is None:
+            continue
+        par = getattr(tgt, '_parent', None)
+        if isinstance(tgt.ctx, (ast.Store, ast.Del)) and node is not \
+                binds[0].targets[0]:
+            return False
+        if isinstance(par, ast.Subscript) and par.value is tgt and isinstance(
+                par.ctx, (ast.Store, ast.Del)):
+            return False
+        if isinstance(par, ast.Attribute) and par.value is tgt and \
+                par.attr in MUTATING_METHODS:
+            return False
+        if isinstance(par, ast.AugAssign) and par.target is tgt:
+            return False
+    return True
